@@ -991,6 +991,26 @@ func (s *mvSess) judgeRetention(fail func(string, string)) {
 			fail("C13-lost-newest", fmt.Sprintf("key %s: newest version %d at or below the watermark %d is live but gone", hx([]byte(k)), nv.ver, s.spec.maxDiscard))
 			return
 		}
+		// at or below the watermark: the newest NumVersionsToKeep (non-merge) versions, up to and
+		// including the first delete / expired / discard-earlier entry (a dead one may be dropped)
+		if _, dropped := s.spec.dropFloor[k]; !dropped && !s.spec.dupVersion([]byte(k)) {
+			sorted := append([]specVer{}, vs...)
+			sort.Slice(sorted, func(i, j int) bool { return sorted[i].ver > sorted[j].ver })
+			count := 0
+			for _, v := range sorted {
+				if v.ver > s.spec.maxDiscard || v.merge {
+					continue
+				}
+				count++
+				if !v.dead(s.now) && !have[k][v.ver] {
+					fail("C13-lost-retained", fmt.Sprintf("key %s: version %d is the %d-th newest version at or below the watermark %d (NumVersionsToKeep=%d) and live, but it is gone", hx([]byte(k)), v.ver, count, s.spec.maxDiscard, s.keep))
+					return
+				}
+				if v.dead(s.now) || v.discard || count == s.keep {
+					break
+				}
+			}
+		}
 	}
 }
 
